@@ -1,5 +1,6 @@
 import VlsModel.Lemmas.Onchain
 import VlsModel.Props.C12
+import VlsModel.Lemmas.Wallet
 /-
 C08 — On-chain spends lose at most a bounded fee and fund only validated channels.
 
@@ -525,5 +526,72 @@ example :
       ⟨2, 200, 800, 1, [false], [3501000], [], 2,
         [⟨3000000, 0, some false, false, .no, some ⟨3000000, true, true, 0, 1⟩⟩,
          ⟨500000, 0, some false, false, .no, none⟩]⟩ true).2 = .refused .nonMalleable := by decide
+
+/-! ## Which scripts are credited: `Wallet::can_spend` / `allowlist_contains` as decision logic (Model/Wallet.lean)
+
+Until round 8 the three wallet facts of an output (`canSpend`, `scriptAllow`, `xpub`) were inputs of the model.  Here they
+are *computed* from the structure of the script (which address form of which derived key), the output's derivation path,
+the key-derivation style and the allowlist, by the model of `impl Wallet for Node`; the harness group `C08Wallet` runs that
+model against the real `Node`.  `C08_credited_scripts` then says what an accepted transaction can pay to. -/
+section WalletLogic
+open VlsModel.Wallet
+
+/-- the facts `validate_onchain_tx` obtains from the wallet for one output -/
+def outOfScript (style : Style) (allow : List Allowable) (value : Nat) (path : List Nat) (s : Script)
+    (chan : Option ChanFacts) : Out :=
+  { value := value, pathLen := path.length, canSpend := canSpend style path s,
+    scriptAllow := allow.contains (.script s),
+    xpub := match xpubLoop path s allow with
+      | .yes => .yes | .no => .no | .panic => .panic,
+    chan := chan }
+
+/-- **C08 (destinations)**: an output classified *wallet* pays one of the three segwit forms of the node's own key at
+    the output's path (of the length the style admits); *xpubAllow* pays a p2wpkh / p2pkh / p2tr child, at that path, of
+    an allowlisted extended key; *scriptAllow* pays a listed script.  Nothing else is credited without being a validated
+    channel (`C08_channel`). -/
+theorem C08_credited_scripts (style : Style) (allow : List Allowable) (value : Nat) (path : List Nat) (s : Script)
+    (chan : Option ChanFacts) :
+    (classify (outOfScript style allow value path s chan) = .wallet →
+        path ≠ [] ∧ PathFits style path ∧ SpendableForm s (.account path)) ∧
+    (classify (outOfScript style allow value path s chan) = .xpubAllow →
+        path ≠ [] ∧ path.any hardened = false ∧ ∃ j, .xpub j ∈ allow ∧ XpubForm s (xpubKey j path)) ∧
+    (classify (outOfScript style allow value path s chan) = .scriptAllow → .script s ∈ allow) := by
+  unfold classify outOfScript
+  by_cases hp : 0 < path.length
+  · have hne : path ≠ [] := by intro h; simp [h] at hp
+    simp only [hp, if_true]
+    cases hcs : canSpend style path s with
+    | none => simp
+    | some b =>
+      cases b with
+      | true =>
+        refine ⟨fun _ => (canSpend_true style path s).mp hcs, by simp, by simp⟩
+      | false =>
+        cases hsa : allow.contains (Allowable.script s) with
+        | true => simp only [if_true]; refine ⟨by simp, by simp, fun _ => by simpa using hsa⟩
+        | false =>
+          simp only [Bool.false_eq_true, if_false]
+          cases hx : xpubLoop path s allow with
+          | yes =>
+            refine ⟨by simp, fun _ => ?_, by simp⟩
+            obtain ⟨h1, h2⟩ := (xpubLoop_yes path s allow).mp hx
+            exact ⟨hne, h1, h2⟩
+          | no => simp
+          | panic => simp
+  · simp only [hp, if_false]
+    cases hsa : allow.contains (Allowable.script s) with
+    | true => simp only [if_true]; refine ⟨by simp, by simp, fun _ => by simpa using hsa⟩
+    | false => cases chan <;> simp
+
+/-- the theorem is not vacuous: a change output at path [7] (native style), an allowlisted xpub child and a listed
+    script are classified as such; p2pkh to the own key with a path is a bogus destination -/
+example :
+    classify (outOfScript .native [] 1000 [7] (.addr .p2wpkh (.account [7])) none) = .wallet
+    ∧ classify (outOfScript .native [.xpub 1] 1000 [7] (.addr .p2pkh (.xpub 1 [7])) none) = .xpubAllow
+    ∧ classify (outOfScript .native [.script (.other 3)] 1000 [] (.other 3) none) = .scriptAllow
+    ∧ classify (outOfScript .native [] 1000 [7] (.addr .p2pkh (.account [7])) none) = .bogusPath
+    ∧ classify (outOfScript .native [] 1000 [] (.addr .p2wpkh (.account [7])) none) = .unknown := by decide
+
+end WalletLogic
 
 end VlsModel.Props.C08
